@@ -227,6 +227,37 @@ def structure_programs(tier):
                     yield ('structure|%s|%s|%s|%s' % (gn, an, bn, fn_), {'templates': tmpl, 'globals': gmain, 'imports': imports})
 
 
+def strip_programs():
+    """xsl:strip-space elements="*" removes whitespace-only text from SOURCE trees only: whitespace the stylesheet itself writes into a
+    result tree fragment (xsl:text) stays, however the fragment is used afterwards. The documents of this family hold no
+    whitespace-only text, so stripping the source changes nothing and the reference needs no notion of it. Only core-language uses of
+    the fragment are generated: what xalan:nodeset() delivers for such a fragment is not defined by the Recommendation (this processor
+    applies the declarations lazily in its node tests and so also to the nodes of a converted fragment; see DESIGN.md section 8)."""
+    V = ('var', 'v')
+    frag = [('lre', 'x', [], [('text', ' ')]), ('lre', 'y', [], [('text', '\n'), ('lre', 'x', [], [('text', '\t ')]), ('text', 'k')]), ('text', ' ')]
+    uses = [
+        ('copy-of rtf', [('copyof', E(V))]),
+        ('value-of rtf', [('valueof', E(fn('string-length', V)))]),
+        ('value-of rtf text', [('lre', 'q', [('l', [E(fn('string-length', fn('translate', V, s('k'), s(''))))])], [('valueof', E(V))])]),
+        ('copy-of rtf twice', [('copyof', E(V)), ('lre', 'sep', [], []), ('copyof', E(V))]),
+        ('rtf passed to a rule', [('apply', E(P_STAR), 'sp', [], [('fr', E(V))])]),
+        ('nested rtf', [('variable', 'v2', ('body', [('lre', 'z', [], [('copyof', E(V))])])), ('copyof', E(('var', 'v2')))]),
+    ]
+    for un, ub in uses:
+        for cn, mk in [('direct', lambda b_: b_)] + [(c, m) for c, m in container_forms()[:6]]:
+            body = [('variable', 'v', ('body', frag))] + mk(ub)
+            sheet = make_sheet(body)
+            sheet['strip'] = True
+            sheet['templates'].append(dict(match=(P_STAR, '*', [(P_STAR, -0.5)]), mode='sp', params=[('fr', None)], body=[('lre', 'P', [], [('copyof', E(('var', 'fr')))])]))
+            yield 'strip|%s|%s' % (cn, un), sheet
+
+
+def strip_docs(tier):
+    def has_ws(n):
+        return any((c.kind == R.TEXT and c.value.strip(' \t\r\n') == '') or has_ws(c) for c in n.children)
+    return [d for d in docs(tier) if not has_ws(d.root)][:6]
+
+
 def structure_docs():
     El = R.E
     return [
@@ -247,7 +278,8 @@ def shard_main(shard, nshards, tier):
     samples = []
     SD = structure_docs()
     work = itertools.chain(((desc, make_sheet(body), D) for desc, body in programs(tier)),
-                           ((desc, sheet, SD) for desc, sheet in structure_programs(tier)))
+                           ((desc, sheet, SD) for desc, sheet in structure_programs(tier)),
+                           ((desc, sheet, strip_docs(tier)) for desc, sheet in strip_programs()))
     for idx, (desc, sheet, docs_) in enumerate(work):
         if idx % nshards != shard:
             continue
